@@ -34,13 +34,19 @@
     the cursor by `block_length`; all other entries leave the cursor alone (their
     accessors advance it).
   * `on_entry`: `validate_and_subtract(group_block_length)`, `visit_children`.
-  * `on_data`: `validate_and_subtract(size_bytes(d))` (READS the length again).
+  * `on_data` (since /repo 3b08414): `validate_and_subtract(sizeof(size_type))`,
+    and only if that succeeds `validate_and_subtract(d.size())` (`d.size()` =
+    `sbe_size().value()` = `get_value<size_type>(*this, 0)`: READS the length
+    prefix again).  Prefix and payload are validated one after the other because
+    their sum `size_bytes(d)` wraps in `std::size_t` for a 64-bit length close to
+    2^64 (before that commit `on_data` was `validate_and_subtract(size_bytes(d))`).
 
   Every buffer read is recorded in an access log `(offset, size)`, every
   callback invocation is a step.  Pointers are offsets from the start of the
   buffer (unbounded `Nat`: forming a pointer beyond the buffer is not flagged).
   `std::size_t` arithmetic is modelled where it can wrap
-  (`validate_and_subtract`, `dynamic_array_ref::size_bytes`).
+  (`validate_and_subtract`, `dynamic_array_ref::size_bytes` - still used by the
+  cursor accessors `get_data_view` / `get_first_data_view` to ADVANCE the cursor).
 
   This model is for builds WITHOUT `SBEPP_SIZE_CHECK` (release builds): there the
   checks are no-ops and the reads are plain memory accesses.  In checked builds
@@ -228,14 +234,18 @@ def visitFields (start wbl : Nat) (blk : List Access) : List FieldA → St → S
 def visitDatas (start wbl : Nat) (blk : List Access) : Bool → List DataL → St → St × Bool
   | _, [], s => (s, false)
   | first, d :: ds, s =>
-    -- accessor
+    -- accessor: [ptr = level + block_length;] d = view at ptr; ptr += d(size_bytes_tag)
     let s0 := if first then (s.readAll blk).setPtr (start + wbl) else s
     let p := s0.ptr
-    let sb := dataSizeBytes d.lenSize (rd bo buf p d.lenSize)
-    let s1 := (s0.read .dataLength p d.lenSize).setPtr (p + sb)
-    -- callback: return !validate_and_subtract(size_bytes(d))
-    let s2 := ((s1.step).read .dataLength p d.lenSize).validate sb
-    if !s2.valid then (s2, true) else visitDatas start wbl blk false ds s2
+    let len := rd bo buf p d.lenSize
+    let s1 := (s0.read .dataLength p d.lenSize).setPtr (p + dataSizeBytes d.lenSize len)
+    -- callback: if(!validate_and_subtract(sizeof(size_type))) return true;
+    let s2 := s1.step.validate d.lenSize
+    if !s2.valid then (s2, true)
+    else
+      -- return !validate_and_subtract(d.size());   (`d.size()` reads the prefix again)
+      let s3 := (s2.read .dataLength p d.lenSize).validate len
+      if !s3.valid then (s3, true) else visitDatas start wbl blk false ds s3
 
 /-- `*it` (the entry view constructed from the cursor) followed by
     `size_bytes_checked_visitor::on_entry`; `children` is the entry's generated
@@ -397,7 +407,7 @@ the generated code.  Below the same behaviour is factored the way the C++ is:
   in a state monad `VM` over `St`.  Everything the visitor calls in the rest of
   the system is a field of the `View` / `Header` records it is handed
   (`sbepp::get_header`, `sbepp::size_bytes`, `*header.blockLength()`,
-  `sbepp::visit_children(x, c, *this)`, `sbepp::visit`, `sbepp::addressof`,
+  `sizeof(typename T::size_type)`, `d.size()`, `sbepp::visit_children(x, c, *this)`, `sbepp::visit`, `sbepp::addressof`,
   `sbepp::init_cursor`, `detail::get_header_size`).
   `Sbepp.Extracted.Checked` (generated from sbepp.hpp on every run by
   `extract/methods_checked.py`) contains the same definitions as the C++ text says
@@ -471,8 +481,14 @@ instance : Inhabited Header := ⟨{ sizeBytes := pure 0, blockLength := pure ⟨
 structure View where
   /-- `sbepp::get_header(x)` -/
   getHeader : VM Header := pure default
-  /-- `sbepp::size_bytes(d)` of a `<data>` view (reads the length prefix) -/
+  /-- `sbepp::size_bytes(d)` of a `<data>` view (reads the length prefix; `sizeof(size_type) + size()`
+      in `std::size_t`).  Not called by the visitor since /repo 3b08414; kept so that the earlier text of
+      `on_data` still translates (and then fails its tie) -/
   sizeBytes : VM Nat := pure 0
+  /-- `sizeof(typename T::size_type)` for the type `T` of a `<data>` view: a constant of the view type -/
+  sizeofSizeType : Nat := 0
+  /-- `d.size()` of a `<data>` view: `sbe_size().value()`, reads the length prefix at offset 0 of the view -/
+  size : VM Nat := pure 0
   /-- `sbepp::visit_children(x, c, *this)` -/
   visitChildren : Cursor → Self → VM Self := fun _ v => pure v
   /-- `sbepp::addressof(view)` -/
@@ -533,7 +549,10 @@ def onField (_ : View) (_ : Tag) : VM Bool := do
 
 /-- `bool on_data(T d, Tag)` -/
 def onData (d : View) (_ : Tag) : VM Bool := do
-  let n ← View.sizeBytes d
+  let ok ← validateAndSubtract (View.sizeofSizeType d)
+  if !ok then
+    return true
+  let n ← View.size d
   let ok ← validateAndSubtract n
   return !ok
 
@@ -616,9 +635,12 @@ open Visitor
 /-- one callback invocation: counted, then run; `(state, returned value)` -/
 def callback (m : VM Bool) (s : St) : St × Bool := ((m s.step).2, (m s.step).1)
 
-/-- the view `on_data` receives: `size_bytes(d)` reads the length prefix at `p` again -/
-def dataView (p lenSize sb : Nat) : View :=
-  { sizeBytes := fun s => (sb, s.read .dataLength p lenSize) }
+/-- the `<data>` view at `p` that `on_data` receives (`len` = the value of its length prefix):
+    `sizeof(size_type)` is the width of the prefix, `d.size()` and `size_bytes(d)` read the prefix again -/
+def dataView (p lenSize len : Nat) : View :=
+  { sizeofSizeType := lenSize
+    size := fun s => (len, s.read .dataLength p lenSize)
+    sizeBytes := fun s => (dataSizeBytes lenSize len, s.read .dataLength p lenSize) }
 
 /-- the view `on_entry` receives; its `visit_children` is the entry's generated
     `visit_children` (the ghost counter `zeroEntries` is updated on the way in) -/
@@ -645,9 +667,9 @@ def datas (start wbl : Nat) (blk : List Access) : Bool → List DataL → St →
   | first, d :: ds, s =>
     let s0 := if first then (s.readAll blk).setPtr (start + wbl) else s
     let p := s0.ptr
-    let sb := dataSizeBytes d.lenSize (rd bo buf p d.lenSize)
-    let s1 := (s0.read .dataLength p d.lenSize).setPtr (p + sb)
-    let r := callback (V.onData (dataView p d.lenSize sb) {}) s1
+    let len := rd bo buf p d.lenSize
+    let s1 := (s0.read .dataLength p d.lenSize).setPtr (p + dataSizeBytes d.lenSize len)
+    let r := callback (V.onData (dataView p d.lenSize len) {}) s1
     if r.2 then r else datas start wbl blk false ds r.1
 
 /-- `onEntryWith` with `on_entry` as a callback -/
